@@ -124,6 +124,16 @@ CHECKS["C04"] = dict(
     design="DESIGN.md section 3 / C04",
 )
 
+CHECKS["C05"] = dict(
+    technique="abstract interpretation of every inheritance handler on the four parent/child presence combinations (kinds derived from bodies, compared with the SVG property table), table comparison of defaults, structural predicates for group retention and style precedence, call-site agreement for opacity pushing, symbolic interpretation of normalize_opacity",
+    text="Composited colour is not decided. Decided: which ancestor wins and how values combine for every property (handler kinds derived by "
+         "interpreting the handler bodies, so a renamed or rewritten handler is judged by what it does), defaults equal SVG initial values, the "
+         "keep-or-flatten predicate and its child count, a dissolved group's opacity reaching each child exactly once at every call site, style "
+         "declarations overriding attributes, opacity folding of the absent paint, and the own-before-inherited order of the traversal context.",
+    note="Not applicable: composited colour at sample points; the `inherit` keyword and currentColor are out of the property's scope.",
+    design="DESIGN.md section 3 / C05",
+)
+
 NOT_APPLICABLE = {}
 
 
